@@ -14,6 +14,8 @@
 //	plan, yet ThreadSanitizer sees them as mutually unordered.
 package verifrt
 
+import "runtime"
+
 // Quantum kinds.
 const (
 	KStmts   = 0 // run Budget statements, then park
@@ -30,16 +32,19 @@ const (
 )
 
 type Task struct {
-	ID      int
-	Resume  chan struct{}
-	Kind    int
-	Budget  int64
-	Steps   int64 // statements executed so far by this task
-	OpSteps int64 // statements executed inside the current operation
-	OpLimit int64 // >0: panic(StepLimit) when OpSteps exceeds it
-	Site    int32 // last yield site seen
-	InOp    bool
-	Done    bool
+	ID       int
+	Resume   chan struct{}
+	Ev       chan int // events of this task to the scheduler (one channel per task: a task that was blocked inside the library may come back at any time)
+	GID      int64    // goroutine id (only used while some task is detached)
+	Detached bool     // the scheduler gave up waiting: the task is blocked inside the library on a primitive the simulator does not own
+	Kind     int
+	Budget   int64
+	Steps    int64 // statements executed so far by this task
+	OpSteps  int64 // statements executed inside the current operation
+	OpLimit  int64 // >0: panic(StepLimit) when OpSteps exceeds it
+	Site     int32 // last yield site seen
+	InOp     bool
+	Done     bool
 }
 
 type StepLimit struct{}
@@ -101,6 +106,11 @@ func Y(site int32) {
 		}
 	case 2:
 		t := Current
+		if SlowIdent {
+			// some task is detached and may be running at the same time as the current one: the global
+			// "current task" is not reliable, identify the caller by its goroutine id
+			t = byGID(curGID())
+		}
 		if t == nil {
 			return
 		}
@@ -144,9 +154,44 @@ func Y(site int32) {
 //go:norace
 func park(t *Task, ev int) {
 	raceDisable()
-	ToSched <- ev
+	t.Ev <- ev
 	<-t.Resume
 	raceEnable()
+}
+
+// SlowIdent is set by the scheduler while at least one task is detached.
+var SlowIdent bool
+
+// Tasks of the current run (set by the scheduler before any task starts).
+var Tasks []*Task
+
+//go:norace
+func byGID(g int64) *Task {
+	for _, t := range Tasks {
+		if t.GID == g {
+			return t
+		}
+	}
+	return nil
+}
+
+// curGID parses the goroutine id out of the first line of the stack trace ("goroutine 123 [").
+//
+//go:norace
+func curGID() int64 {
+	var buf [64]byte
+	n := runtime.Stack(buf[:], false)
+	var id int64
+	for i := len("goroutine "); i < n && buf[i] >= '0' && buf[i] <= '9'; i++ {
+		id = id*10 + int64(buf[i]-'0')
+	}
+	return id
+}
+
+// ResetTasks installs the tasks of a new run.
+func ResetTasks(ts []*Task) {
+	Tasks = ts
+	SlowIdent = false
 }
 
 // OpBegin/OpEnd bracket one operation of a task (called by the harness, not by library code).
@@ -164,13 +209,14 @@ func OpEnd(t *Task) {
 func Finish(t *Task) {
 	raceDisable()
 	t.Done = true
-	ToSched <- EvFinish
+	t.Ev <- EvFinish
 	raceEnable()
 }
 
 //go:norace
 func WaitStart(t *Task) {
 	raceDisable()
+	t.GID = curGID()
 	<-t.Resume
 	raceEnable()
 }
